@@ -1,6 +1,6 @@
 SPECIFICATION Spec
 CONSTANTS
-  Deviations <- AllDevs
+  Deviations <- RealDevs
   MaxNodes = 4
   Worlds <- QuickWorlds
   Rich = TRUE
